@@ -50,6 +50,8 @@ type Ctx struct {
 	Rule       string
 	Assume     []string
 	Extra      map[string]any // extra coverage keys
+	Shadow     bool           // also run every verification case twice through a re-used Options value (history independence)
+	SharedPool chan any       // pool of re-used Options values (one per worker), managed by props
 
 	start time.Time
 	mu    sync.Mutex
